@@ -31,6 +31,10 @@ where
     ///
     /// Returns the collection of log records that can
     /// be used to revert if a subsequent merge fails.
+    ///
+    /// The pruned records are returned most recent first so
+    /// the collection must be reversed before it is appended
+    /// to the event log again.
     async fn rewind(
         &mut self,
         commit: &CommitHash,
